@@ -174,6 +174,19 @@ impl<'a> Read<'a> {
     fn slice(&self) -> &'a [u8] {
         unsafe { self.slice.as_ref() }
     }
+
+    /// Whether `sub` lies in storage that belongs to this reader itself — the inline buffer of
+    /// a short `FastStr` it has pinned — and therefore does not outlive it.
+    pub(crate) fn is_inline_storage(&self, sub: &[u8]) -> bool {
+        match &self.input {
+            PinnedInput::FastStr(f) => {
+                let base = &**f as *const FastStr as usize;
+                let p = sub.as_ptr() as usize;
+                p >= base && p < base + std::mem::size_of::<FastStr>()
+            }
+            PinnedInput::Slice(_) => false,
+        }
+    }
 }
 
 impl<'a> Reader<'a> for Read<'a> {
